@@ -58,6 +58,12 @@ def run(ctx):
         kb = [b for b in kf.emitted if b[-1].get("kfs")]
         ctx.log("MC_refs_kf: %d generated / %d distinct; %d witnesses, %d pass a known-finding trigger" % (kf.generated, kf.distinct, len(kf.emitted), len(kb)))
         behs += kb
+        # DESIGN H10 end to end: the retired ref's out-of-order chunk ends up under the new series' labels
+        h10 = ctx.tlc("db", "Refs", "MC_refs_h10.cfg", workers=1, timeout=3000)
+        ctx.account(h10)
+        hb = [b for b in h10.emitted if b[-1].get("kfs")]
+        ctx.log("MC_refs_h10: %d generated / %d distinct; %d witnesses, %d pass the trigger" % (h10.generated, h10.distinct, len(h10.emitted), len(hb)))
+        behs += hb
     # seeded walks: free, and along the scenario skeletons (checkpoint / fast startup / out-of-order ghosts)
     for cfg, part, depth, n in (("SIM_refs.cfg", "sim", 16, 4), ("SIM_refs_ckpt.cfg", "ckpt", 14, 4),
                                 ("SIM_refs_fast.cfg", "fastsim", 12, 3), ("SIM_refs_ooo.cfg", "ooo", 16, 3)):
